@@ -249,6 +249,10 @@ func (f *Frame) callByContract(ns *nodeState, x *ssa.Call, fc *FuncContract, fn 
 			post.names[lt.Name] = Val{T: vc.Define(f.prefix+"plet_"+lt.Name, post.eval(lt.Expr))}
 		}()
 	}
+	for _, e := range fc.AssumedEnsures {
+		vc.Assume(Implies(ns.reach, post.evalBool(e.Expr)), "ASSUMED postcondition of "+key)
+		vc.assumeNote("assumed, not proved: postcondition of " + key + ": " + e.Text)
+	}
 	for _, e := range fc.Ensures {
 		if mentionsAny(e.Expr, internal) {
 			continue // stated in terms of a proof witness / callee local: callers use the other forms
